@@ -360,6 +360,14 @@ func Analyze(config *Config) (result *Result, err error) {
 		}
 	}
 
+	// Clients read the points-to sets of the result from several goroutines (the parallel intra-procedural pass
+	// queries aliases of every value). An intsets.Sparse that was never written is initialised lazily by its first
+	// read, which makes two concurrent readers of the same empty set race on its root block. Initialise every set
+	// now, while the analysis is still single-threaded.
+	for _, n := range a.nodes {
+		n.solve.pts.Has(0)
+	}
+
 	return a.result, nil
 }
 
